@@ -21,7 +21,10 @@ struct ShNode<S> {
 }
 
 pub struct ProblemInfo<S> {
+    /// the first start state (the one the pinned planners plan from)
     pub start: Option<S>,
+    /// every start state of the problem definition (a planner may root its search at any of them)
+    pub starts: Vec<S>,
     pub goal_sat: Box<dyn Fn(&S) -> bool>,
     /// is the goal reachable from the start through valid states? 0 no, 1 yes, 2 unknown
     pub feas: u8,
@@ -430,7 +433,7 @@ impl<'a, S: Clone + Bits> Annot<'a, S> {
                     let tr = *tree as usize;
                     if let Some(s) = Self::state_of(&rec.snap, tr, *idx) {
                         let sid = self.intern.id(&s);
-                        let is_start = problems[i].start.as_ref().map(|st| st.bits() == s.bits()).unwrap_or(false);
+                        let is_start = problems[i].starts.iter().any(|st| st.bits() == s.bits());
                         let is_goal = (problems[i].goal_sat)(&s);
                         roots.push(json!({"tr": tr + 1, "s": sid, "isstart": is_start, "isgoal": is_goal,
                                           "valid": self.g.valid(&s), "inb": self.g.in_bounds(&s)}));
@@ -650,11 +653,15 @@ impl<'a, S: Clone + Bits> Annot<'a, S> {
         let mut start_valid = true;
         let mut start_inb = true;
         let mut feas = 2u8;
+        let mut start_valid_all = true;
         if let Some(i) = self.pd {
             feas = problems[i].feas;
-            if let Some(st) = &problems[i].start {
-                start_valid = self.g.valid(st);
-                start_inb = self.g.in_bounds(st);
+            if !problems[i].starts.is_empty() {
+                // "an invalid start is reported": with several start states a planner must refuse only when
+                // none is usable, and may refuse as soon as one is not
+                start_valid = problems[i].starts.iter().any(|st| self.g.valid(st));
+                start_valid_all = problems[i].starts.iter().all(|st| self.g.valid(st));
+                start_inb = problems[i].starts.iter().all(|st| self.g.in_bounds(st));
             }
         }
         if let Outcome::Path(p) = &rec.outcome {
@@ -667,8 +674,8 @@ impl<'a, S: Clone + Bits> Annot<'a, S> {
                 plen.push(self.u(self.g.dist(&w[0], &w[1])));
             }
             if let Some(i) = self.pd {
-                if let (Some(st), Some(f)) = (&problems[i].start, p.first()) {
-                    first_is_start = st.bits() == f.bits();
+                if let Some(f) = p.first() {
+                    first_is_start = problems[i].starts.iter().any(|st| st.bits() == f.bits());
                 }
                 if let Some(l) = p.last() {
                     last_goal = (problems[i].goal_sat)(l);
@@ -679,7 +686,7 @@ impl<'a, S: Clone + Bits> Annot<'a, S> {
         let elapsed = (rec.t_end - rec.t_begin) / TICK_NS;
         self.out.push(json!({"ev": "ret", "kind": k, "site": site, "msg": msg, "path": path, "pvalid": pvalid,
             "pinb": pinb, "plen": plen, "first_is_start": first_is_start, "last_goal": last_goal,
-            "start_valid": start_valid, "start_inb": start_inb && self.c04_precondition, "t": elapsed, "T": t, "snap": snap, "feas": feas}));
+            "start_valid": start_valid, "start_valid_all": start_valid_all, "start_inb": start_inb && self.c04_precondition, "t": elapsed, "T": t, "snap": snap, "feas": feas}));
     }
 
     // ------------------------------------------------------------------------------------- PRM
@@ -786,7 +793,11 @@ impl<'a, S: Clone + Bits> Annot<'a, S> {
         let mut sc = Vec::new();
         let mut goalf = Vec::new();
         if let Some(i) = self.pd {
-            if let Some(st) = problems[i].start.clone() {
+            let from_path = match &rec.outcome {
+                Outcome::Path(p) => p.first().and_then(|f| problems[i].starts.iter().find(|st| st.bits() == f.bits()).cloned()),
+                _ => None,
+            };
+            if let Some(st) = from_path.or(problems[i].start.clone()) {
                 for (m, _) in &road {
                     let d = self.g.dist(&st, m);
                     let inr = in_radius(d, self.params.radius, self.g.mode() == "lattice");
